@@ -100,6 +100,7 @@ def handler (prop : String) : Handler := fun op args impl =>
     let (o, t) := match prop with
       | "C14" => oracleC14 op args impl
       | "C15" => oracleC15 op args impl
+      | "C17" => oracleC17 args impl
       | _ => ("na", "")
     some (m, o, t)
 
